@@ -77,7 +77,7 @@ ASSUMPTIONS = [
     "monomial are read off its exact polynomial value",
 ]
 HEALTH = {"flatten:nontrivial": 0.06, "fold:two-constants": 0.06, "collect:like-terms": 0.03,
-          "expand:nontrivial": 0.05, "pairs:nontrivial": 0.03, "dom:evaluable": 0.08,
+          "expand:nontrivial": 0.05, "pairs:nontrivial": 0.015, "dom:evaluable": 0.08,
           "mixed-type-constants": 0.08}
 CASE_TIMEOUT_S = 20
 TIMEOUT_IS_FAIL = False
@@ -176,12 +176,14 @@ def _is_rational_tree(e):
         ex = e.exponent
         if isinstance(ex, int) and not isinstance(ex, bool) and abs(ex) <= 12:
             return _is_rational_tree(e.base)
-        return _opaque_ok(e)
+        # symbolic exponents: the collector adds them up (x*x**k -> x**(1+k)), so such a
+        # power is no indeterminate; judged by the reference interpreter only
+        return False
     return _opaque_ok(e)
 
 
 def _opaque_ok(e):
-    if type(e).__name__ not in ("Call", "Subscript", "Lookup", "Power"):
+    if type(e).__name__ not in ("Call", "Subscript", "Lookup"):
         return False
     return not (walk.node_types(e) & {"Sum", "Product", "Quotient", "CommonSubexpression"})
 
@@ -571,7 +573,9 @@ def check_collect(spec):
             keys_out = [_laurent_key(conv, t, params) for t in _top_terms(out)]
             if None not in keys_out:
                 res.compared()
-                dup = [k for k, c in Counter(keys_out).items() if c > 1]
+                # the coefficient of the empty monomial is a sum of constants/parameters that
+                # the collector does not fold: its operands all have key ()
+                dup = [k for k, c in Counter(keys_out).items() if c > 1 and k]
                 if dup:
                     res.fail("collect:like-terms-not-merged",
                              f"TermCollector({params})({e!r}) = {out!r}: monomial {dup[0]} "
@@ -842,8 +846,21 @@ CHECKS = {"flatten": check_flatten, "fold": check_fold, "cfold": check_cfold,
 
 # {{{ known findings
 
-def _powers(spec):
-    return [s for s in subspecs(spec) if s[0] == "Power" and len(s) == 3]
+def _trees(sub, spec):
+    """the expression specs a case hands to the rewrite"""
+    try:
+        if sub == "pairs":
+            return [spec["base"], _apply_ops(spec["base"], spec["ops"])]
+        if sub == "helpers":
+            return list(spec["terms"])
+        return [spec["expr"]]
+    except (HarnessError, KeyError, TypeError):
+        return []
+
+
+def _powers(tree):
+    return [s for s in subspecs(tree) if s[0] == "Power" and len(s) == 3
+            and is_node_spec(s[1])]
 
 
 def _exp_of(s):
@@ -851,17 +868,33 @@ def _exp_of(s):
     return v if isinstance(v, int) and not isinstance(v, bool) else None
 
 
+def _n_terms(s):
+    """number of terms of the polynomial a POLY spec denotes, None if it is none"""
+    try:
+        return len(Converter(opaque=False)(build(s)).as_poly().t)
+    except Exception:
+        return None
+
+
+SHAPE_KINDS = ("expand:shape:like-terms-not-merged", "expand:term-multisets-differ",
+               "expand:term-multisets-differ:both-not-normal")
+DIST_KINDS = (*SHAPE_KINDS, "expand:shape:Sum-below-Product", "expand:shape:Sum-below-Power",
+              "expand:shape:term-is-not-a-monomial")
+
+
 def _known_f23a(sub, spec, fail):
-    """DistributeMapper.map_power iterates the mapped base of a Power whose base is a Product"""
+    """DistributeMapper.map_power tests expr.base (not the expanded base) for Product and
+    iterates the expression: TypeError for Product bases; a base that only *expands* to a
+    product (y+y -> 2*y) keeps its power, so like terms stay apart"""
     if sub not in ("expand", "pairs"):
         return False
-    if not (fail.kind.endswith(":raised:TypeError@mapper/distributor.py:map_power")
-            or fail.kind.endswith(":raised:TypeError@primitives.py:__iter__")):
-        return False
-    trees = [spec.get("expr")] if sub == "expand" else [
-        spec.get("base"), _apply_ops(spec["base"], spec["ops"])]
-    return any(s[1][0] == "Product" for t in trees if t is not None for s in _powers(t)
-               if is_node_spec(s[1]))
+    trees = _trees(sub, spec)
+    if fail.kind.endswith((":raised:TypeError@mapper/distributor.py:map_power",
+                           ":raised:TypeError@primitives.py:__iter__")):
+        return any(s[1][0] == "Product" for t in trees for s in _powers(t))
+    if fail.kind in SHAPE_KINDS:
+        return any(s[1][0] == "Sum" and _n_terms(s[1]) == 1 for t in trees for s in _powers(t))
+    return False
 
 
 def _known_f23b(sub, spec, fail):
@@ -870,14 +903,74 @@ def _known_f23b(sub, spec, fail):
         return False
     if not fail.kind.endswith(":raised:AttributeError@mapper/__init__.py:map_sum"):
         return False
-    trees = [spec.get("expr")] if sub == "expand" else [
-        spec.get("base"), _apply_ops(spec["base"], spec["ops"])]
-    return any(_exp_of(s) is not None and _exp_of(s) <= 0 and is_node_spec(s[1])
-               and s[1][0] in ("Sum", "Power", "Product", "Quotient")
-               for t in trees if t is not None for s in _powers(t))
+    return any(_exp_of(s) is not None and _exp_of(s) <= 0 and s[1][0] in ("Sum", "Power")
+               for t in _trees(sub, spec) for s in _powers(t))
 
 
-KNOWN = {"F23a": _known_f23a, "F23b": _known_f23b}
+def _known_powpow(sub, spec, fail):
+    """a power of a power keeps both exponents: (x**2)**2 and x**4 are not like terms"""
+    if sub not in ("expand", "pairs") or fail.kind not in SHAPE_KINDS:
+        return False
+    return any(s[1][0] == "Power" or (s[1][0] in ("Sum", "Product") and _n_terms(s[1]) == 1)
+               for t in _trees(sub, spec) for s in _powers(t))
+
+
+def _is_one(s):
+    """the spec denotes the constant polynomial 1"""
+    try:
+        rf = Converter()(build(s))
+        return rf.n == rf.d
+    except Exception:
+        return False
+
+
+def _known_dist_leading(sub, spec, fail):
+    """dist(): a factor in front of two or more sum factors is multiplied onto the already
+    distributed rest instead of being distributed: a*(b+c)*(d+e) -> a*(...) + a*(...).
+    A factor counts as a sum if its polynomial has >= 2 terms (0+y and x+x expand to one)."""
+    if sub not in ("expand", "pairs") or fail.kind not in DIST_KINDS:
+        return False
+    for t in _trees(sub, spec):
+        for s in subspecs(t):
+            if s[0] != "Product" or len(s) != 2:
+                continue
+            nt = [_n_terms(c) for c in s[1]]
+            sums = [i for i, k in enumerate(nt) if k is not None and k >= 2]
+            # (factors behind the first sums are distributed by a recursive call on the rest)
+            if len(sums) >= 2 and any(
+                    i not in sums and not (G.const_value(c) is not None
+                                           and G.const_value(c) == 1)
+                    for i, c in enumerate(s[1][:sums[-2]])):
+                return True
+    return False
+
+
+def _known_quotient_term(sub, spec, fail):
+    """map_quotient returns 1/d unchanged and TermCollector.split_term refuses a Quotient as
+    an operand of a sum"""
+    if sub not in ("expand", "pairs"):
+        return False
+    if not fail.kind.endswith(":raised:RuntimeError@mapper/collector.py:split_term"):
+        return False
+    # with parameters the collector itself produces 1/d: x/z + x -> (1/z + 1)*x for parameter z
+    with_params = sub == "expand" and spec.get("mode") == "params"
+    return any(s[0] == "Quotient" and len(s) == 3 and (with_params or _is_one(s[1]))
+               for t in _trees(sub, spec) for s in subspecs(t))
+
+
+def _known_fold_arith(sub, spec, fail):
+    """ConstantFoldingMapperBase.evaluate only expects ValueError from an un-evaluable constant
+    sub-expression: 1/0, 0**-1, 1 % 0 (also when they only arise by folding, (0*x)**-1) make
+    the folder - and expand(), which folds - raise"""
+    if ":raised:ZeroDivisionError@mapper/evaluator.py:" not in fail.kind:
+        return False
+    return any(s[0] in ("Quotient", "Power", "FloorDiv", "Remainder")
+               for t in _trees(sub, spec) for s in subspecs(t))
+
+
+KNOWN = {"F23a": _known_f23a, "F23b": _known_f23b, "F-C11-powpow": _known_powpow,
+         "F-C11-dist-leading": _known_dist_leading,
+         "F-C11-quotient-term": _known_quotient_term, "F-C11-fold-arith": _known_fold_arith}
 
 # }}}
 
@@ -900,7 +993,8 @@ def tree_case(draw):
         s = draw(G.enrich(s, floats=True, np_consts=True))
     else:
         kind = draw(st.sampled_from(("NUM", "NUM", "INT", "BOOL")))
-        s = draw(S.expr(kind, draw(st.integers(2, 4)), EVAL_FRAG))
+        frag = EVAL_FRAG.but(poison=True) if draw(st.integers(0, 4)) == 0 else EVAL_FRAG
+        s = draw(S.expr(kind, draw(st.integers(2, 4)), frag))
         s = draw(G.enrich(s, floats=kind == "NUM", p_nest=1, p_neutral=1, p_const=2))
         s = G.sanitize(s, draw(st.integers(0, 6)))
     return {"expr": s}
@@ -979,11 +1073,11 @@ def generate(ctx):
     ctx.run_given(tree_case(),
                   lambda s: (ctx.judge("flatten", s), ctx.judge("fold", s),
                              ctx.judge("cfold", s)),
-                  ctx.n(2400, 60000))
-    ctx.run_given(helper_case(), lambda s: ctx.judge("helpers", s), ctx.n(1200, 30000))
-    ctx.run_given(collect_case(), lambda s: ctx.judge("collect", s), ctx.n(2400, 60000))
-    ctx.run_given(expand_case(), lambda s: ctx.judge("expand", s), ctx.n(3000, 75000))
-    ctx.run_given(pair_case(), lambda s: ctx.judge("pairs", s), ctx.n(1600, 40000))
+                  ctx.n(2200, 90000))
+    ctx.run_given(helper_case(), lambda s: ctx.judge("helpers", s), ctx.n(1200, 50000))
+    ctx.run_given(collect_case(), lambda s: ctx.judge("collect", s), ctx.n(2200, 90000))
+    ctx.run_given(expand_case(), lambda s: ctx.judge("expand", s), ctx.n(3000, 120000))
+    ctx.run_given(pair_case(), lambda s: ctx.judge("pairs", s), ctx.n(2400, 100000))
 
 # }}}
 
